@@ -10,7 +10,7 @@
     allocator's answer list, [fuel] the iteration budget of the header scan.
     [stream_ok]: records are non-empty, positions fit a signed 64-bit offset,
     the stream is shorter than 2^63 bytes and has at most 2^31 records. *)
-From Coq Require Import NArith ZArith List Bool Permutation.
+From Coq Require Import NArith ZArith List Bool Permutation Lia.
 From KdV Require Import Base.Wrap64 Base.ByteSeq Map.MapModel
      Flat.FlatModel Flat.FlatSpec Flat.FlatProofs
      Flat.SplitModel Flat.SplitSpec Flat.SplitProofs
@@ -251,6 +251,51 @@ Proof.
   split; [eexists; vm_compute; reflexivity|].
   split; [vm_compute; reflexivity|].
   eexists; vm_compute; reflexivity.
+Qed.
+
+(** Round trip for a whole disk set (model level, composing the theorems
+    above): take disks [ds] whose data areas lie in their files, headers [hs]
+    that describe them consistently, and pass the files in ANY order [hs'].
+    Then [sadump_probe] accepts the set, and for every position of the set's
+    page data (the concatenation of the data areas in disk order) the extent
+    walk of [sadump_read_page] lands in the file - identified through its
+    index in the order passed - of the disk that holds that byte, at the file
+    position of that byte. *)
+Theorem C11_diskset_roundtrip : forall ds hs hs' pos,
+  Forall sdisk_ok ds ->
+  List.map disk_of hs = headers_of ds 0 ->
+  consistent_set hs -> Permutation hs hs' ->
+  (0 <= pos < Z.of_nat (length (set_data ds)))%Z -> (pos <= OFF_MAX)%Z ->
+  exists exts f fp k d h,
+    probe_set false hs' = inl exts /\
+    walk exts pos = WAt f fp /\
+    nth_error hs' (N.to_nat f) = Some h /\ h_num h = N.of_nat (S k) /\
+    nth_error ds k = Some d /\ (0 <= fp)%Z /\
+    nth (Z.to_nat fp) (s_file d) 0 = nth (Z.to_nat pos) (set_data ds) 0.
+Proof. exact diskset_roundtrip. Qed.
+Print Assumptions C11_diskset_roundtrip.
+
+(** its hypotheses are satisfiable: two disks, data areas [1;2] and [3] *)
+Example C11_diskset_roundtrip_nonvacuous :
+  let ds := [ {| s_file := [9; 9; 1; 2]; s_pos := 2; s_area := [1; 2] |};
+              {| s_file := [7; 3; 8]; s_pos := 1; s_area := [3] |} ] in
+  let mk num pos len vol tab :=
+    {| h_num := num; h_pos := pos; h_len := len; h_bs := 4096; h_sys := 7; h_set := 8; h_time := 9;
+       h_vol := vol; h_disks := (if (num =? 1)%N then 2 else 0)%N; h_table := tab |} in
+  let hs := [mk 1%N 2%Z 2%Z 11%N [11; 22]%N; mk 2%N 1%Z 1%Z 22%N []] in
+  Forall sdisk_ok ds /\ List.map disk_of hs = headers_of ds 0 /\ consistent_set hs /\
+  set_data ds = [1; 2; 3].
+Proof.
+  split.
+  { repeat constructor; cbn; try (unfold OFF_MAX; lia);
+      intros j Hj; cbn in Hj; destruct j as [|[|j]]; cbn; try reflexivity; lia. }
+  split; [reflexivity|]. split; [|reflexivity].
+  split.
+  - split.
+    + cbn. repeat constructor; cbn [In]; intuition discriminate.
+    + intros d [<-|[<-|[]]]; cbn; split; discriminate.
+  - exists 4096%N, 7%N, 8%N, 9%N, [11; 22]%N. split; [reflexivity|].
+    intros h [<-|[<-|[]]]; cbn; repeat split; try reflexivity; try discriminate.
 Qed.
 
 (** non-vacuity: three disks (the middle one without data), passed as 3,1,2:
